@@ -23,8 +23,10 @@ CondSet == {Cond(<<rf>>, <<>>) : rf \in RFSet}
                  Cond(<<RF(<<0, 1>>, "exact"), RF(<<1>>, "orlonger")>>, <<>>),        \* two route filters: any
                  Cond(<<>>, << << <<0>> >>, << <<1>> >> >>),                          \* two prefix lists: any
                  CondProto(<<"bgp">>), CondProto(<<"static">>), CondProto(<<"static", "bgp">>)}
-ActSet == {Act("accept"), Act("reject"), ActV("lp", 200), ActV("lp", 300), ActV("med", 5), ActV("nh", 9),
-           ActPrepend(65001, 2), ActPrepend(65002, 1)}
+(* action values collide on purpose with values of OTHER attributes of the input paths (LOCAL_PREF 100/200, MED 0/5, *)
+(* next hop 1/2/3) so that an action reading or writing the wrong attribute is visible                             *)
+ActSet == {Act("accept"), Act("reject"), ActV("lp", 200), ActV("lp", 5), ActV("med", 5), ActV("med", 100), ActV("med", 200),
+           ActV("nh", 9), ActV("nh", 2), ActPrepend(65001, 2), ActPrepend(65010, 1)}
 
 PathIn == [ A |-> [type |-> "bgp", lp |-> 100, med |-> 0, nh |-> 1, asp |-> <<65010>>],
             B |-> [type |-> "bgp", lp |-> 200, med |-> 5, nh |-> 2, asp |-> <<>>],
@@ -58,7 +60,7 @@ MutAct(a) == CASE a.k = "lp" -> {[a EXCEPT !.v = a.v + 1]}
                [] a.k = "reject" -> {Act("accept")}
 MutRF(rf) == {[rf EXCEPT !.m = IF rf.m = "exact" THEN "orlonger" ELSE "exact"],
               [rf EXCEPT !.pat = IF rf.pat = <<>> THEN <<1>> ELSE <<>>]}
-              \cup (IF rf.m = "range" THEN {[rf EXCEPT !.max = rf.max + 1]} ELSE {})
+              \cup (IF rf.m = "range" THEN {[rf EXCEPT !.max = rf.max + 1], [rf EXCEPT !.min = IF rf.min > 0 THEN rf.min - 1 ELSE 1]} ELSE {})
 MutCond(c) == {[c EXCEPT !.rfs[i] = r] : i \in 1..Len(c.rfs), r \in UNION {MutRF(c.rfs[j]) : j \in 1..Len(c.rfs)}}
               \cup {[c EXCEPT !.pls[i] = Append(@, <<1, 1>>)] : i \in 1..Len(c.pls)}
               \cup {[c EXCEPT !.pls[i] = << <<1, 1>> >>] : i \in 1..Len(c.pls)}
